@@ -174,11 +174,11 @@ func c05GenFn(t *rapid.T) c05Fn {
 type c05Loop struct {
 	MinNS    int64 `json:"min_ns"`
 	MaxNS    int64 `json:"max_ns"`
-	Waits    int   `json:"waits"`      // observe this many waits, then cancel
-	PreNS    int64 `json:"pre_ns"`     // advance the clock before starting (varies the PRNG seed, which is the clock)
-	CancelNS int64 `json:"cancel_ns"`  // cancel this long after the last observed request
-	SlowNS   int64 `json:"slow_ns"`    // consumer latency per request (scheduler busy)
-	StallAt  int   `json:"stall_at"`   // >0: the consumer does not accept request number stall_at for stall_ns (process paused, scheduler blocked)
+	Waits    int   `json:"waits"`     // observe this many waits, then cancel
+	PreNS    int64 `json:"pre_ns"`    // advance the clock before starting (varies the PRNG seed, which is the clock)
+	CancelNS int64 `json:"cancel_ns"` // cancel this long after the last observed request
+	SlowNS   int64 `json:"slow_ns"`   // consumer latency per request (scheduler busy)
+	StallAt  int   `json:"stall_at"`  // >0: the consumer does not accept request number stall_at for stall_ns (process paused, scheduler blocked)
 	StallNS  int64 `json:"stall_ns"`
 }
 
